@@ -48,6 +48,11 @@ func initAllowed(path string) bool {
 	if initAllowExtra[path] {
 		return true
 	}
+	for k := range initAllowExtra {
+		if strings.HasSuffix(k, "/...") && (path == k[:len(k)-4] || strings.HasPrefix(path, k[:len(k)-3])) {
+			return true
+		}
+	}
 	if strings.HasPrefix(path, "ariga.io/atlas") {
 		for _, d := range initDenyAtlas {
 			if path == d || strings.HasPrefix(path, d+"/") {
